@@ -12,6 +12,7 @@ import (
 	"fmt"
 	"io"
 	"reflect"
+	"regexp"
 	"runtime"
 	"strings"
 	"time"
@@ -161,6 +162,114 @@ type c07Ifaces struct {
 	I interface{}
 }
 type c07T struct{ A int }
+
+
+// ---- random unpack target types ------------------------------------------------------------------
+// Named types cannot be made by reflect; these are the named atoms the random types are built from.
+type c07K string
+type c07KI int
+type c07NB bool
+type c07NF float32
+type c07NSl []int
+type c07NMap map[string]int
+type c07NPtr *int
+type c07NFunc func()
+type c07NIface interface{ M() }
+type c07NStruct struct {
+	A int
+	B c07K
+}
+
+var c07Atoms = []reflect.Type{
+	reflect.TypeOf(false), reflect.TypeOf(int(0)), reflect.TypeOf(int8(0)), reflect.TypeOf(int16(0)), reflect.TypeOf(int64(0)),
+	reflect.TypeOf(uint(0)), reflect.TypeOf(uint8(0)), reflect.TypeOf(uint32(0)), reflect.TypeOf(uintptr(0)),
+	reflect.TypeOf(float32(0)), reflect.TypeOf(float64(0)), reflect.TypeOf(complex64(0)), reflect.TypeOf(""),
+	reflect.TypeOf(time.Duration(0)), reflect.TypeOf((*interface{})(nil)).Elem(), reflect.TypeOf((*error)(nil)).Elem(),
+	reflect.TypeOf((*fmt.Stringer)(nil)).Elem(), reflect.TypeOf(ucfg.Config{}), reflect.TypeOf((*ucfg.Config)(nil)),
+	reflect.TypeOf(c07K("")), reflect.TypeOf(c07KI(0)), reflect.TypeOf(c07NB(false)), reflect.TypeOf(c07NF(0)),
+	reflect.TypeOf(c07NSl(nil)), reflect.TypeOf(c07NMap(nil)), reflect.TypeOf(c07NPtr(nil)), reflect.TypeOf(c07NFunc(nil)),
+	reflect.TypeOf((*c07NIface)(nil)).Elem(), reflect.TypeOf(c07NStruct{}), reflect.TypeOf(make(chan int)), reflect.TypeOf(func() {}),
+	reflect.TypeOf(regexp.Regexp{}), reflect.TypeOf((*regexp.Regexp)(nil)),
+}
+
+// key types of maps: comparable atoms (reflect.MapOf panics on the others)
+var c07KeyAtoms = []reflect.Type{
+	reflect.TypeOf(""), reflect.TypeOf(c07K("")), reflect.TypeOf(int(0)), reflect.TypeOf(c07KI(0)), reflect.TypeOf(false),
+	reflect.TypeOf((*interface{})(nil)).Elem(), reflect.TypeOf(float64(0)), reflect.TypeOf([1]string{}), reflect.TypeOf(struct{ A string }{}),
+}
+
+func c07RandType(r *Rng, depth int) reflect.Type {
+	k := r.Intn(10)
+	if depth >= 3 || k < 4 {
+		return c07Atoms[r.Intn(len(c07Atoms))]
+	}
+	switch k {
+	case 4:
+		return reflect.PtrTo(c07RandType(r, depth+1))
+	case 5:
+		return reflect.SliceOf(c07RandType(r, depth+1))
+	case 6:
+		return reflect.ArrayOf(r.Intn(3), c07RandType(r, depth+1))
+	case 7:
+		key := c07KeyAtoms[0]
+		if r.P(1, 2) {
+			key = c07KeyAtoms[r.Intn(len(c07KeyAtoms))]
+		}
+		return reflect.MapOf(key, c07RandType(r, depth+1))
+	default:
+		n := 1 + r.Intn(3)
+		var fs []reflect.StructField
+		for i := 0; i < n; i++ {
+			tag := ""
+			switch r.Intn(8) {
+			case 0:
+				tag = `config:",inline"`
+			case 1:
+				tag = `config:"f0"`
+			case 2:
+				tag = `config:"a.b" validate:"required"`
+			case 3:
+				tag = `validate:"min=1"`
+			case 4:
+				tag = `config:",ignore"`
+			}
+			fs = append(fs, reflect.StructField{Name: fmt.Sprintf("F%d", i), Type: c07RandType(r, depth+1), Tag: reflect.StructTag(tag)})
+		}
+		return reflect.StructOf(fs)
+	}
+}
+
+var c07TypeTreeCfg = TreeCfg{Keys: []string{"f0", "f1", "f2", "a", "b"}, MaxDepth: 4, MaxWidth: 3, PNil: 2, PEmpty: 2}
+
+func c07RandomTargets(g *Gen, n int) {
+	r := g.R
+	for i := 0; i < n; i++ {
+		var t reflect.Type
+		if p, _ := guard(func() { t = c07RandType(r, 0) }); p || t == nil {
+			continue // reflect refused to build the type
+		}
+		var cm interface{} = map[string]interface{}{}
+		if !r.P(1, 6) {
+			cm = randTree(r, c07TypeTreeCfg, 0)
+		}
+		c, err := ucfg.NewFrom(cm, ucfg.PathSep("."))
+		if err != nil {
+			continue
+		}
+		in := fmt.Sprintf("%v <- %s", t, descTree(cm))
+		ptr := reflect.New(t)
+		c07Total(g, "unpack-random:*T", in, func() error { return c.Unpack(ptr.Interface(), ucfg.PathSep(".")) })
+		if r.P(1, 4) {
+			val := reflect.New(t).Elem()
+			c07Total(g, "unpack-random:T", in, func() error { return c.Unpack(val.Interface(), ucfg.PathSep(".")) })
+		}
+		if r.P(1, 3) {
+			// the other direction: a value of the type as a source of settings
+			src := reflect.New(t)
+			c07Total(g, "merge-random:*T", fmt.Sprint(t), func() error { return ucfg.New().Merge(src.Interface(), ucfg.PathSep(".")) })
+		}
+	}
+}
 
 // targets for Unpack: name, constructor of a fresh target
 var c07Targets = []struct {
@@ -383,4 +492,7 @@ func genC07(g *Gen) {
 			c07Total(g, "newfrom:"+t.name, fmt.Sprintf("config %d", ci), func() error { _, err := ucfg.NewFrom(t.mk()); return err })
 		}
 	}
+
+	// (7) unpack target types built at random from every kind, named types included
+	c07RandomTargets(g, 4*g.N)
 }
